@@ -133,6 +133,16 @@ func faultsFor(fc *FieldCase) []dataFault {
 		add("wrong type inside a map", p+".p.0", "zz", p+".p.0")
 	case KSStruct:
 		add("primitive where an object is expected", p+".0", uint64(5), p+".0")
+	case KAStruct:
+		add("primitive where an object is expected", p+".1", uint64(5), p+".1")
+		add("wrong length for a fixed-size array", p, []interface{}{map[string]interface{}{}}, p)
+	case KSSVInt:
+		add("wrong type inside a list", p+".0.1", "zz", p+".0.1")
+	case KMSVInt:
+		add("wrong type inside a map", p+".q.0", "zz", p+".q.0")
+	case KU64:
+		add("unparsable string for a number / boolean", p, "zz", p)
+		add("out of range for the field's kind", p, int64(-1), p)
 	case KMStruct:
 		add("primitive where an object is expected", p+"."+fc.Keys[0], uint64(5), p+"."+fc.Keys[0])
 	}
